@@ -203,7 +203,22 @@ def _sysrun(tier, seed, log=print):
     rng = random.Random(seed)
     try:
         log('[1/5] TLC: model checking BertE.tla (%s)' % ', '.join(MC_CFGS[tier]))
-        mc = run_mc(MC_CFGS[tier], scratch, 900 if tier == 'quick' else 3600)
+        # the exhaustive configurations depend on the specification only, not on /repo: cached per spec hash
+        import hashlib
+        hh = hashlib.sha256()
+        for f in ['BertE.tla'] + MC_CFGS[tier]:
+            fp = os.path.join(tlc.SPEC_DIR, f)
+            hh.update(open(fp, 'rb').read() if os.path.exists(fp) else b'-')
+        mcpath = os.path.join(CACHE, 'mc_%s_%s.json' % (tier, hh.hexdigest()[:16]))
+        if os.path.exists(mcpath):
+            mc = json.load(open(mcpath))
+            log('      (model checking results of this specification reused: %s)' % os.path.basename(mcpath))
+        else:
+            mc = run_mc(MC_CFGS[tier], scratch, 900 if tier == 'quick' else 3600)
+            if all(m['ok'] or EXPECTED_LEADS.get(m['cfg']) == m['violated'] for m in mc):
+                for old in glob.glob(os.path.join(CACHE, 'mc_%s_*.json' % tier)):
+                    os.unlink(old)
+                json.dump(mc, open(mcpath, 'w'))
         for m in mc:
             log('      %(cfg)s: %(distinct)d distinct states, depth %(depth)d, violated=%(violated)s, %(wall_s)ss' % m)
         log('[2/5] TLC -simulate -> replay of specification behaviours on the real code')
